@@ -29,3 +29,44 @@ package contracts
 //@   ensures result == sindex(s, substr)
 //@   ensures result == -1 || (0 <= result && result + len(substr) <= len(s))
 //@   ensures result >= 0 <==> scontains(s, substr)
+
+// ---- io / encoding/binary: readers and writers are opaque objects behind interfaces;
+// ---- what a call may change in the caller's memory is stated by `modifies`.
+
+//@ extern func encoding/binary.Read
+//@   modifies boxed(data)
+//@ extern func encoding/binary.Write
+//@   modifies w.ghost_pos
+//@ extern func io.ReadFull
+//@   modifies buf[all]
+//@   ensures 0 <= result.0 && result.0 <= len(buf)
+//@   ensures result.1 == nil ==> result.0 == len(buf)
+//@ extern func io.(Reader).Read
+//@   modifies p[all]
+//@   ensures 0 <= result.0 && result.0 <= len(p)
+//@   ensures result.0 > 0 || result.1 != nil || len(p) == 0
+//@ extern func io.CopyN
+//@   modifies boxed(dst)
+//@   ensures 0 <= result.0 && (n >= 0 ==> result.0 <= n)
+//@   ensures result.1 == nil ==> result.0 == max(n, 0)
+//@   ensures dst.ghost_len == old(dst.ghost_len) + result.0
+//@ extern func bytes.(*Buffer).Len
+//@   pure
+//@   ensures result == b.ghost_len && result >= 0
+//@ extern func bytes.(*Buffer).Truncate
+//@   requires 0 <= n && n <= b.ghost_len
+//@   modifies *b, b.ghost_len
+//@   ensures b.ghost_len == n
+//@ extern func bytes.(*Buffer).String
+//@   pure
+//@   ensures len(result) == b.ghost_len
+//@ extern func io.(Seeker).Seek
+//@   modifies nothing
+//@   ensures result.1 == nil ==> result.0 >= 0
+//@ extern func io.(ReadSeeker).Seek
+//@   modifies nothing
+//@   ensures result.1 == nil ==> result.0 >= 0
+//@ extern func encoding/binary.(ByteOrder).Uint64
+//@   pure
+//@ extern func encoding/binary.(ByteOrder).Uint32
+//@   pure
